@@ -50,7 +50,7 @@ where
     let mut visitor = BindingCollectorVisitor {
         strict,
         eval,
-        in_arrow: false,
+        arrow_depth: 0,
         scope: scope.clone(),
         interner,
     };
@@ -584,7 +584,8 @@ struct BindingCollectorVisitor<'interner> {
     strict: bool,
     eval: bool,
     scope: Scope,
-    in_arrow: bool,
+    /// Number of arrow functions between the current position and the closest non-arrow function.
+    arrow_depth: usize,
     interner: &'interner Interner,
 }
 
@@ -595,9 +596,11 @@ impl<'ast> VisitorMut<'ast> for BindingCollectorVisitor<'_> {
         &mut self,
         _node: &'ast mut crate::expression::This,
     ) -> ControlFlow<Self::BreakTy> {
-        // NOTE: Arrow functions inherit 'this' from their enclosing scope, so we must escape it.
-        if self.in_arrow {
-            self.scope.escape_this_in_enclosing_function_scope();
+        // NOTE: Arrow functions inherit 'this' from the closest enclosing non-arrow function,
+        // so we must escape it there.
+        if self.arrow_depth > 0 {
+            self.scope
+                .escape_this_in_enclosing_function_scope(self.arrow_depth);
         }
         ControlFlow::Continue(())
     }
@@ -1190,8 +1193,8 @@ impl BindingCollectorVisitor<'_> {
         arrow: bool,
     ) -> ControlFlow<&'static str> {
         let strict = self.strict || strict;
-        let old_in_arrow = self.in_arrow;
-        self.in_arrow = arrow;
+        let old_arrow_depth = self.arrow_depth;
+        self.arrow_depth = if arrow { self.arrow_depth + 1 } else { 0 };
 
         let function_scope = if let Some(name) = name {
             let scope = Scope::new(self.scope.clone(), false);
@@ -1225,7 +1228,7 @@ impl BindingCollectorVisitor<'_> {
 
         *scopes = function_scopes;
 
-        self.in_arrow = old_in_arrow;
+        self.arrow_depth = old_arrow_depth;
 
         ControlFlow::Continue(())
     }
